@@ -1,7 +1,7 @@
 TB_K = ["Kani 0.68.0", "CBMC 6.11.0", "cvc5 1.0.3", "CaDiCaL 3.0.0 / Kissat 4.0.1"]
 TB_V = ["Verus 0.2026.09.13 / Z3", "A2 f32 order axioms (cross-checked bit-precisely by Kani)", "A3 Easing::clone == identity"]
 ADUR = "A4': Duration::as_secs_f32 / from_secs_f32 are replaced in the animator harnesses by uninterpreted functions (monotone, 0 <-> ZERO) over durations below 2^23 s (97 days); from_secs_f32(0)==ZERO is proved on std, monotonicity of as_secs_f32 on that domain is NOT machine-proved as one obligation (Kissat and cvc5: no result in 3000 s); it is assembled from: float addition monotone / integer seconds exact (Kani, dur_add_monotone), n as f32/1e9 monotone in [0,1] (exhaustive native enumeration of all 10^9 values), as_secs_f32 == s as f32 + n as f32/1e9 (std's definition; sampled natively), composed in three lines in verif_dur.rs"
-ATL = "timelines inside the animator / merged timeline are ARBITRARY values of the abstract contract TL (step function of time, shows substituted start values up to the delay, touches only its own properties); that generated timelines satisfy TL is C01/C08/C09/C10's business"
+ATL = "timelines inside the animator / merged timeline are ARBITRARY values of the abstract contract TL (step function of time, shows substituted start values up to the delay, constant from duration() on (terminal constancy: C03 ts_lemma_duration_agrees_*), duration() > delay() (a cycle has positive length; a delay large enough to absorb the whole span in f32 is excluded), touches only its own properties); that generated timelines satisfy TL is C01/C08/C09/C10's business"
 P["C01"] = {"assumptions": [A["KANI"], A["FLOAT"], "V-R1: from_keyframes verified for &Vec<Keyframe> (the derive macro's call shape)", "value function pure", "interpolate_value enters route V as an uninterpreted function; its definition is the Kani-proved contract"],
             "trusted_base": TB_V + TB_K, "not_decided": ["prepare_frame is proved for every number of keyframes ASSUMING std's documented binary-search contract (A7); the real std search is executed only in the bounded Kani harnesses (0,1,2,3,4,6,8,16 master keyframes)"]}
 P["C02"] = {"assumptions": [A["A1"], A["KANI"], A["FLOAT"]], "trusted_base": TB_K + TB_V,
